@@ -261,6 +261,8 @@ func verifHarnessC16Bounded() {
 		// followed a leader that gave up (its own cancellation): retried, and the retry is bounded again
 		assert("follower-of-cancelled-leader-retried", ghostCount("sf.led") == 1)
 		assert("retry-bounded-by-5min", verifNowNS-otherGiveUp <= limit)
+		// the statement's bound is per caller: five minutes from ITS call, however long it waited for another caller's flight
+		assert("caller-without-deadline-that-shared-a-flight-answered-within-5min", elapsed <= limit)
 	}
 	if ghostCount("sf.led") == 1 && !hasDL {
 		assert("fallback-deadline-is-5min", verifLastTimeout == 5*time.Minute)
@@ -585,5 +587,46 @@ func verifHarnessC12RacingLookups() {
 	assert("second-callers-handle-follows-the-install", bytesEq(hB.Get(), want))
 	h3 := s.Secret(name)
 	assert("a-later-handle-follows-the-install", bytesEq(h3.Get(), want))
+	reach("end")
+}
+
+// C15 (+C11): a racing second lookup of a name that the first caller already watches. The service may have rotated the
+// secret between the two fetches. Whatever the second lookup does to the store, the first caller's updater must not be
+// left behind: its next Get is built from the bytes the store now holds.
+func verifHarnessC15RacingLookupUpdater() {
+	verifEnvReset()
+	client := &verifLockClient{}
+	s := verifSymStore(param("names"), &client.verifClient, nil)
+	client.s = s
+	s.client = client
+	s.allowLookup = true
+	assume(verifStoreInv(s))
+	name := nondetString("name")
+	assume(and(name != "", not(mapHas(s.active.m, name))))
+	client.svc[name] = &api.SecretValue{Value: nondetSeq("svc.val1"), Version: api.SecretVersion(nondetU32("svc.ver1"))}
+	ctx := &verifCtx{tag: "caller", hasDeadline: true, deadlineNS: 1 << 50}
+	var u *Updater[*verifBuilt]
+	var errU error
+	raced := false
+	mk := func(bs []byte) (*verifBuilt, error) { return &verifBuilt{from: append([]byte(nil), bs...)}, nil }
+	if symbolic() {
+		verifSF.beforeLead = func() {
+			// the other caller creates its updater (own lookup, own flight) ...
+			raced = true
+			u, errU = NewUpdater(ctx, s, name, mk)
+			// ... and the secret is rotated on the service before this caller's own fetch goes out
+			if nondetBool("rotated.between.the.fetches") {
+				client.svc[name] = &api.SecretValue{Value: nondetSeq("svc.val2"), Version: api.SecretVersion(nondetU32("svc.ver2"))}
+			}
+		}
+	}
+	h, err := s.LookupSecret(ctx, name)
+	if !raced {
+		u, errU = NewUpdater(ctx, s, name, mk)
+	}
+	assert("both-succeed", and(err == nil, errU == nil, h != nil, u != nil))
+	got := u.Get()
+	assert("updater-built-from-the-bytes-the-store-holds-now", bytesEq(got.from, s.active.m[name].Secret.Value))
+	assert("handle-and-updater-agree", bytesEq(h.Get(), got.from))
 	reach("end")
 }
